@@ -30,6 +30,25 @@ CHECKS["C14"] = dict(
     design="4 (C14)",
 )
 
+CHECKS["C15"] = dict(
+    technique="Coq proof (custom induction principle over the nested step-tree type; chain invariant for the slices of the parallel combinators) over a hand-written Gallina size model of every built-in step, combinator and initialiser + differential correspondence on real step objects",
+    text="4 theorems (Props/C15.v, closed under the global context): for EVERY step tree of any nesting depth over the built-in steps, every weight vector (non-negative, positive total, however the shares round), every population size n >= k >= 0, list(step.apply(...)) has exactly k individuals; hence every GP generation has population_size individuals; every initialiser incl. injected populations of every length yields exactly k. Tied to /repo by ~2500 generated (step tree, n, k, population form) cases per run, all weight vectors over {0,1,2,5,90}^<=3 for both parallel combinators, all three population forms (list, Population, one-shot generator), plus whole GP runs observed per generation.",
+    note="Trusted: Coq kernel + vm_compute; hand-written size model Model/Steps.v (individuals abstracted away); harness. round() modelled as half-even on rationals (the theorem holds for any rounding). Known finding F27 (parameterless initialiser ignores the requested size by design) listed in known_findings.json.",
+    design="4 (C15)",
+)
+CHECKS["C16"] = dict(
+    technique="Coq proof (stable insertion sort is a strongly sorted permutation; prefix/suffix argument) over a hand-written Gallina model of ElitismStep/sort_population + differential correspondence + contract evaluated on implementation outputs",
+    text="5 theorems (Props/C16.v, closed under the global context): for every population (ties, the same individual twice), both directions, every elite count: the output has min(k,|pop|) individuals, is a sub-multiset of the population, no excluded individual is strictly better than an included one; with >= 1 slot the best survives, so the best fitness of the next generation is never worse whatever the other slices produce. Tied to /repo by ~1600 generated cases per run on the real ElitismStep (three population forms) and by whole GP runs whose per-generation best is checked for monotonicity.",
+    note="Trusted: Coq kernel + vm_compute; hand-written model; harness; CPython's sorted() stability. Monotonicity is conditional on >= 1 elitism slot, as the property states (the default 5% slot rounds to 0 below population 10).",
+    design="4 (C16)",
+)
+CHECKS["C17"] = dict(
+    technique="Coq proof (induction over the selection loop for every random source state = all outcomes of the draws) over a hand-written Gallina model of TournamentSelection and LexicaseSelection (incl. epsilon/MAD over Q) + differential correspondence with exhaustive replay-and-branch enumeration of the implementation's decision sequences for small populations",
+    text="7 theorems (Props/C17.v, closed under the global context): tournament: exactly k winners, each one of the participants drawn for its tournament, participants are population members, no participant strictly better than the winner (sizes 1.., with/without replacement); lexicase: winners drawn without replacement from the population, each survives the lexicase filter for the case order freshly shuffled for it (a permutation of all cases); surviving the first case = best on it (or within the non-negative MAD band). Tied to /repo by enumerating ALL outcomes of the random draws for populations <= 3 and <= 3 cases (~1900 decision sequences per run) and random larger cases with gene-backed draws, compared inside Coq.",
+    note="Trusted: Coq kernel + vm_compute; hand-written model; harness (RecordingSource records every choice()/shuffle()); numpy.median agrees with the rational median (exercised).",
+    design="4 (C17)",
+)
+
 ALL = [f"C{n:02d}" for n in range(1, 21)]
 
 m = {
